@@ -777,6 +777,68 @@ def gen_partial_case(rng, malformed=False):
     return c
 
 
+MARKS = {"int": ["11", "22", "33", "44"], "float": ["1.5", "2.5", "3.5", "4.5"], "str": ["wa", "wb", "wc", "wd"]}
+
+
+def gen_multipos_params(rng):
+    """2-4 positional-only parameters WITHOUT defaults (all of one type with distinct marker values, or of distinct
+    types — a swap shows as a wrong value or as a conversion error inside the target), then 0-2 defaulted positional-only
+    ones, then 0-2 ordinary parameters"""
+    k = rng.choice([2, 2, 3, 4])
+    same = rng.random() < 0.5
+    tys = [rng.choice(["int", "float", "str"])] * k if same else [["int", "str", "float", "int"][i] for i in range(k)]
+    names = rng.sample([x for x in NAMES if x != "flag"], k + 4)
+    params = [{"name": names[i], "kind": "posOnly", "ty": tys[i], "dflt": None, "vty": tys[i]} for i in range(k)]
+    for j in range(rng.choice([0, 0, 1, 2])):
+        ty = rng.choice(["int", "str"])
+        params.append({"name": names[k + j], "kind": "posOnly", "ty": ty, "dflt": rng.choice(CFG_TY[ty]["dflt"]), "vty": ty})
+    for j in range(rng.choice([0, 1, 2])):
+        ty = rng.choice(["int", "float", "str", "bool"])
+        params.append({"name": names[k + 2 + j], "kind": rng.choice(["posOrKw", "kwOnly"]) if j == 0 else "kwOnly", "ty": ty,
+                       "dflt": rng.choice(CFG_TY[ty]["dflt"]), "vty": ty})
+    # posOrKw may not follow kwOnly; defaults are a suffix: both hold by construction
+    return params, k
+
+
+def gen_partial_multipos_case(rng):
+    """config_for / Partial target with several positional-only parameters: every required one gets its marker on the
+    command line; optionally the first m are ignored and passed as extra *args at call time"""
+    params, k = gen_multipos_params(rng)
+    t = {"name": "Tgt0" if rng.random() < 0.4 else "tgt0", "params": params, "class_ann": []}
+    t["is_class"] = t["name"] == "Tgt0"
+    t["docs"] = {"class": None, "init": None}
+    m = rng.choice([0, 0, 1, 2]) if k > 2 else rng.choice([0, 0, 1])
+    ignored = [p["name"] for p in params[:m]]
+    given, call_args = [], []
+    for i, p in enumerate(params):
+        if i < m:
+            call_args.append(900 + i)
+        elif p["dflt"] is None or rng.random() < 0.5:
+            if p["vty"] == "bool":
+                given.append([p["name"], rng.choice(["pos", "neg"]), []])
+            else:
+                given.append([p["name"], "long", [MARKS[p["vty"]][i % 4]]])
+    return {"target": t, "ignore": {"form": "tuple", "names": ignored} if ignored else {"form": "absent"}, "overrides": [],
+            "frozen": rng.choice([None, True]), "given": given, "extra": [], "call_kw": [], "call_args": call_args}
+
+
+def gen_main_multipos_case(rng):
+    """@main with 2-4 positional-only parameters without defaults carrying distinct markers"""
+    cparams, k = gen_multipos_params(rng)
+    params = []
+    n_po_given = rng.randrange(k, sum(1 for p in cparams if p["kind"] == "posOnly") + 1)
+    for i, p in enumerate(cparams):
+        q = {"name": p["name"], "kind": p["kind"], "ty": p["ty"], "dflt": p["dflt"], "doc": False, "given": None}
+        if p["kind"] == "posOnly":
+            if i < n_po_given:
+                q["given"] = {"tok": [MARKS[p["ty"]][i % 4]], "form": "long"}
+        elif rng.random() < 0.5:
+            q["given"] = {"tok": [], "form": "long"} if p["ty"] == "bool" else {"tok": [MARKS[p["ty"]][i % 4]], "form": "long"}
+        params.append(q)
+    return {"params": params, "future": rng.random() < 0.2, "doc": False, "opts_first": False, "extra": [], "other_kw": [],
+            "other_args": [], "form": rng.choice(["direct", "factory", "sysargv"]), "malformed": None}
+
+
 def gen_cache_case(rng):
     targets = [gen_cfg_target(rng, idx=i, e2e=True, mutable_ok=False) for i in range(rng.choice([1, 2, 3]))]
     forms = []
@@ -895,6 +957,11 @@ def gen(rng, tier):
         yield {"op": "call.config", "case": gen_config_case(rng)}
     for _ in range(150 if q else 1200):
         yield {"op": "call.partial", "case": gen_partial_case(rng, malformed=rng.random() < 0.12)}
+    # several positional-only parameters (order!): Partial with / without extra *args, and @main
+    for _ in range(40 if q else 250):
+        yield {"op": "call.partial", "case": gen_partial_multipos_case(rng)}
+    for _ in range(25 if q else 150):
+        yield {"op": "call.main", "case": gen_main_multipos_case(rng)}
     for _ in range(80 if q else 500):
         yield {"op": "call.cache", "case": gen_cache_case(rng)}
     # the same callable requested again after k OTHER callables had their config classes derived
